@@ -90,7 +90,10 @@ def known_findings(pid):
 
 
 # properties whose statement has a clause no contract decides: level 'other', the bounded stand-in always runs
-OTHER_LEVEL = {'C05': 'wiring of the samplers proved for all inputs; the distributional clause rests on the competing-exponentials theorem (assumed) and is looked at by the bounded statistical stand-in only'}
+OTHER_LEVEL = {'C18': 'the wiring of fit into L-BFGS-B is proved for all inputs; that the optimiser stays inside the bounds and never returns a worse point is the assumed contract of scipy.optimize.minimize, exercised by the bounded stand-in',
+               'C05': 'wiring of the samplers proved for all inputs; the distributional clause rests on the competing-exponentials theorem (assumed) and is looked at by the bounded statistical stand-in only'}
+# properties whose core functions are not yet under contract: the bounded stand-in always runs and the level is 'exploration'
+INTERIM = {'C06', 'C07', 'C17', 'C20'}
 LEMMA_PROPS = {'C01': ['distrib_inner'], 'C04': ['sum_nonneg_ge_term'], 'C11': ['sum_nonneg_ge_term'],
                'C10': ['closed_column_sum_zero', 'sum_comm_zero', 'step_keeps_total'],
                'C12': ['sum_perm'], 'C20': ['gram_psd', 'sum_psd'], 'C07': [], 'C13': []}
@@ -263,7 +266,7 @@ def check(pid, tier, seed, args):
     proof_ok = not (unknown or undecided or missing or errors or proof_lost)
     standin = None
     unreplayed = [v for v in violations if not v[2]]
-    run_standin = (tier == 'thorough') or (not proof_ok) or (not contracts) or (pid in OTHER_LEVEL) or bool(unreplayed)
+    run_standin = (tier == 'thorough') or (not proof_ok) or (not contracts) or (pid in OTHER_LEVEL) or (pid in INTERIM) or bool(unreplayed)
     have_standin = False
     if run_standin and not args.no_standin:
         try:
@@ -341,6 +344,8 @@ def check(pid, tier, seed, args):
     level = 'proof' if (proof_ok and contracts and n_obl > 0 and n_proved == n_obl) else ('other' if (proof_ok and contracts and n_obl > 0) else 'exploration')
     if level == 'proof' and pid in OTHER_LEVEL:
         level = 'other'
+    if pid in INTERIM:
+        level = 'exploration'
     assumptions = [
         "python int = mathematical integer; python/numpy float = real arithmetic (no rounding, overflow, NaN, inf)",
         "partial correctness: termination of while loops is not proved",
